@@ -474,4 +474,12 @@ def r15_5(ctx: Ctx) -> RuleResult:
     return rr
 
 
-RULES = [r15_1, r15_2, r15_3, r15_4, r15_5]
+def r15_6(ctx: Ctx) -> RuleResult:
+    """A patch printed by `asdicts()` and loaded again is the same patch only if the loader, with the patch's default
+    options, reads every `path` / `from` text as the pointer that printed it (= R3.6, for the defaults of JSONPatch)."""
+    from .c03 import r3_6
+
+    return r3_6(ctx, "R15.6", "jsonpath.patch.JSONPatch")
+
+
+RULES = [r15_1, r15_2, r15_3, r15_4, r15_5, r15_6]
